@@ -35,8 +35,32 @@ def plan(tier, seed):
              "real": 1 if tier == "quick" else 40, "hist": 1 if tier == "quick" else 100} for i in range(16)]
 
 
+def far_apart_cfg(rng, n_wfs):
+    """A small outer scale and a wide asterism: the meta-pupils of two sensors at the (only) layer are several outer scales apart,
+    where the structure function is saturated to within 1e-13 .. 0 (a shortcut for 'decorrelated' pairs must still be bit-exact)."""
+    c = slopecfg.make_config(rng, n_wfs=n_wfs, max_n=3, cls="same_geometry")
+    D, h = 4.0, 15000.0
+    L0 = float(rng.choice([1.0, 2.0, 3.0]))
+    gap = L0 * float(rng.uniform(4.5, 8.0)) + D          # centre-to-centre distance of the meta-pupils
+    th = gap / h / slopecfg_arcsec()
+    ang = float(rng.uniform(0, 2 * np.pi))
+    c["telescope_diameter"] = D
+    c["subap_diameters"] = [D / m.shape[0] for m in c["pupil_masks"]]
+    c["gs_altitudes"] = [0.0] * n_wfs
+    c["gs_positions"] = [[0.0, 0.0]] + [[th * np.cos(ang + k), th * np.sin(ang + k)] for k in range(n_wfs - 1)]
+    c["n_layers"], c["layer_altitudes"], c["layer_r0s"], c["layer_L0s"] = 1, [h], [float(rng.uniform(0.1, 0.3))], [L0]
+    c["class"] = "far_apart_metapupils"
+    return c
+
+
+def slopecfg_arcsec():
+    return np.pi / 180.0 / 3600.0
+
+
 def small_cfg(rng, n_wfs):
     v = rng.random()
+    if n_wfs >= 2 and v > 0.9:
+        return far_apart_cfg(rng, n_wfs)
     if n_wfs >= 2 and v < 0.15:
         c = slopecfg.nearly_equal_sensors(rng, max_n=3, n_wfs=n_wfs)
     elif n_wfs >= 2 and v < 0.25:
@@ -73,8 +97,9 @@ def run(ctx, spec):
     seen_orders = set()
     # ---------------- (i) controlled pool: completion permutations ----------------
     for ci in range(spec["cfgs"]):
-        for n_wfs in (1, 2, 3):
-            cfg = small_cfg(rng, n_wfs)
+        for n_wfs in (1, 2, 3, -2):
+            cfg = small_cfg(rng, n_wfs) if n_wfs > 0 else far_apart_cfg(rng, 2)      # (-2: the far-apart class, always present)
+            n_wfs = abs(n_wfs)
             ntask = n_wfs * (n_wfs + 1) // 2
             _, ref = build(aotools, sc, cfg, 1)
             dref = digest(ref)
